@@ -252,9 +252,12 @@ fn write_file_contents<'data, A: Arch<Platform = Elf>>(
 
     let mut writable_buckets = split_buffers_by_alignment(&mut section_buffers, layout);
     let groups_and_buffers = split_output_by_group(layout, &mut writable_buckets);
+    // Note, we don't use `try_for_each` here, since if more than one group fails, which error it
+    // returns depends on thread scheduling. Instead we report the error from the first group that
+    // failed.
     groups_and_buffers
         .into_par_iter()
-        .try_for_each(|(group, mut buffers)| -> Result {
+        .map(|(group, mut buffers)| -> Result {
             verbose_timing_phase!("Write group");
 
             let mut table_writer = TableWriter::from_layout(
@@ -280,7 +283,10 @@ fn write_file_contents<'data, A: Arch<Platform = Elf>>(
                 .validate_empty(&group.mem_sizes)
                 .with_context(|| format!("validate_empty failed for {group}"))?;
             Ok(())
-        })?;
+        })
+        .collect::<Vec<Result>>()
+        .into_iter()
+        .collect::<Result>()?;
 
     for (output_section_id, _) in layout.output_sections.ids_with_info() {
         let relocations = layout
